@@ -31,25 +31,65 @@ class UserErr(Exception):
 
 
 # ------------------------------------------------------------------ encoding
+ATTRS = ["bold", "dim", "italic", "underline", "blink", "blink2", "reverse", "conceal", "strike", "underline2", "frame", "encircle", "overline"]
+
+
+def _ckey(c):
+    if c is None:
+        return None
+    try:
+        return (c.name, int(c.type), c.number, None if c.triplet is None else tuple(c.triplet))
+    except Exception:
+        return ("?", repr(c))
+
+
+def skey(st):
+    """A style field by field through its public accessors: colours, every attribute as a tri-state (True / False
+    = "not X" / None = unset - this is the attribute bits AND the set mask), the link, truthiness, and the derived
+    str() and hash().  Deliberately NOT Style.__eq__ / __hash__ / __str__ alone: a copy that carries the cached hash and
+    definition of its original but lost a field still compares unequal here."""
+    try:
+        return (_ckey(st.color), _ckey(st.bgcolor), tuple(getattr(st, a) for a in ATTRS), st.link, bool(st), str(st), hash(st))
+    except Exception as e:  # a broken style object is a value to compare (never equal to a sound one), not a harness crash
+        return ("broken", type(e).__name__, id(st))
+
+
+def same_style(a, b):
+    """structural equality (and Style.__eq__ must agree with it)"""
+    if a is b:
+        return True
+    try:
+        eq = bool(a == b) and not bool(a != b)
+    except Exception:
+        return False
+    return skey(a) == skey(b) and eq
+
+
+def same_styles(d1, d2):
+    """dict equality with styles compared structurally"""
+    return d1.keys() == d2.keys() and all(same_style(v, d2[k]) for k, v in d1.items())
+
+
 class Ids:
-    """style -> id of its Style.__eq__ class"""
+    """style -> id of its structural class (`skey`; on sound styles that is its Style.__eq__ class)"""
 
     def __init__(self):
         self.reps = []
         self.by_key = {}
+        self.by_skey = {}
 
     def sid(self, st):
         k = id(st)
         got = self.by_key.get(k)
         if got is not None and got[0] is st:
             return got[1]
-        for i, r in enumerate(self.reps):
-            if r == st:
-                self.by_key[k] = (st, i + 1)
-                return i + 1
-        self.reps.append(st)
-        self.by_key[k] = (st, len(self.reps))
-        return len(self.reps)
+        sk = skey(st)
+        i = self.by_skey.get(sk)
+        if i is None:
+            self.reps.append(st)
+            i = self.by_skey[sk] = len(self.reps)
+        self.by_key[k] = (st, i)
+        return i
 
 
 class Names:
@@ -114,8 +154,12 @@ def _omit_default():
     return _omit[0] % 2 == 0
 
 
-def run_real(console, ops, rec):
-    """execute a history on a real Console; rec() is called after every executed statement"""
+def run_real(console, ops, rec, cms=None):
+    """execute a history on a real Console; rec() is called after every executed statement.  `cms`: the ThemeContext
+    objects of this console by id (a `use` statement with a 5th field enters that object - again while it is active,
+    again after it was left)"""
+    if cms is None:
+        cms = {}
     for op in ops:
         kind = op[0]
         if kind == "push":
@@ -136,10 +180,15 @@ def run_real(console, ops, rec):
             raise UserErr()
         else:
             try:
-                cm = console.use_theme(op[1]) if (op[2] and _omit_default()) else console.use_theme(op[1], inherit=op[2])
+                if len(op) > 4:
+                    if op[4] not in cms:
+                        cms[op[4]] = console.use_theme(op[1]) if (op[2] and _omit_default()) else console.use_theme(op[1], inherit=op[2])
+                    cm = cms[op[4]]
+                else:
+                    cm = console.use_theme(op[1]) if (op[2] and _omit_default()) else console.use_theme(op[1], inherit=op[2])
                 with cm:
                     rec()
-                    run_real(console, op[3], rec)
+                    run_real(console, op[3], rec, cms)
             finally:
                 rec()
 
@@ -221,6 +270,31 @@ def enc_ops(names, ids, ops):
     return out
 
 
+def has_ctx_objects(ops):
+    return any(op[0] == "use" and (len(op) > 4 or has_ctx_objects(op[3])) for op in ops)
+
+
+def enc_ops_ctx(names, ids, ops, store):
+    """as enc_ops, every `with` naming an object of `store` (list of 'i:dict'); a use without id is an object used once"""
+    out = []
+    for op in ops:
+        if op[0] == "push":
+            out.append("P%d:%s" % (op[2], enc_dict_in(names, ids, op[1].styles)))
+        elif op[0] == "pop":
+            out.append("O")
+        elif op[0] == "raise":
+            out.append("R")
+        else:
+            key = ("obj", op[4]) if len(op) > 4 else ("once", len(store["l"]))
+            if key not in store["ix"]:
+                store["ix"][key] = len(store["l"])
+                store["l"].append("%d:%s" % (op[2], enc_dict_in(names, ids, op[1].styles)))
+            out.append("C%d" % store["ix"][key])
+            out.extend(enc_ops_ctx(names, ids, op[3], store))
+            out.append("E")
+    return out
+
+
 def show_ops(ops, tnames):
     out = []
     for op in ops:
@@ -229,7 +303,10 @@ def show_ops(ops, tnames):
         elif op[0] in ("pop", "raise"):
             out.append(op[0])
         else:
-            out.append("use(%s,inherit=%s)[%s]" % (tnames.get(id(op[1]), "T"), op[2], show_ops(op[3], tnames)))
+            if len(op) > 4:
+                out.append("with ctx%d=use_theme(%s,inherit=%s)[%s]" % (op[4], tnames.get(id(op[1]), "T"), op[2], show_ops(op[3], tnames)))
+            else:
+                out.append("use(%s,inherit=%s)[%s]" % (tnames.get(id(op[1]), "T"), op[2], show_ops(op[3], tnames)))
     return "; ".join(out)
 
 
@@ -325,8 +402,8 @@ def take_view(console, probes, names, ids, base_dict, side):
         fresh = st is not src
         lk.append(("v", st, fresh))
         if src is not None and isinstance(st, Style):
-            if st != src:
-                side.append(("get_style result identity", f"get_style{p!r} returned {st}, not equal to the stored/parsed style {src}"))
+            if not same_style(st, src):
+                side.append(("get_style result identity", f"get_style{p!r} returned {st} {_tri(st)}, not structurally equal (colours, attributes as tri-states, link, str, hash) to the stored/parsed style {src} {_tri(src)}"))
             elif src.link and not passed_in:
                 again = console.get_style(name) if len(p) == 1 else console.get_style(name, default=default)
                 if not fresh or st.link_id == src.link_id or again.link_id == st.link_id or not st.link_id:
@@ -343,8 +420,8 @@ def take_view(console, probes, names, ids, base_dict, side):
         src, _ = _source_object(top.get, p[0], p[1] if len(p) > 1 else None)
         if (src is None) != (r[0] != "v") and r[0] != "X":
             side.append(("get_style reads the top entry only", f"get_style{p!r} gives {_sh(r)} but the top entry alone gives {src}"))
-        elif src is not None and r[0] == "v" and r[1] != src:
-            side.append(("get_style reads the top entry only", f"get_style{p!r} gives {r[1]} but the top entry alone gives {src}"))
+        elif src is not None and r[0] == "v" and not same_style(r[1], src):
+            side.append(("get_style reads the top entry only", f"get_style{p!r} gives {r[1]} {_tri(r[1])} but the top entry alone gives {src} {_tri(src)}"))
     snap = (
         "/".join(enc_dict_out(names, ids, d) for d in stack._entries)
         + "#" + enc_dict_out(names, ids, bound)
@@ -368,7 +445,9 @@ def check_history(ctx, ids, base_theme, ops, probes, tnames, default_console=Fal
     base_dict = stack._entries[0]
     names = Names()
     base_enc = enc_dict_in(names, ids, base_dict)
-    ops_enc = ";".join(enc_ops(names, ids, ops))
+    ctx_mode = has_ctx_objects(ops)
+    store = {"l": [], "ix": {}}
+    ops_enc = ";".join(enc_ops_ctx(names, ids, ops, store) if ctx_mode else enc_ops(names, ids, ops))
     probe_enc = []
     for p in probes:
         parts = []
@@ -403,13 +482,24 @@ def check_history(ctx, ids, base_theme, ops, probes, tnames, default_console=Fal
     shown = None
     if sample or ctx.rng.random() < 0.002:
         shown = "history on %s: %s" % ("Console()" if default_console else "Console(theme=BASE)", show_ops(ops, tnames))
-    ctx.case(
-        "theme_hist",
-        [CTX_IGNORES_INHERIT, names.enc(), enc_ptable(names, ids), enc_linked(ids), base_enc, ops_enc, ",".join(probe_enc)],
-        outcome + ";" + "|".join(snaps),
-        shape="%s,steps%d" % (outcome, min(len(snaps), 12) // 3 * 3),
-        sample=shown,
-    )
+    if ctx_mode:
+        # the model names the context objects (Model/ThemeCtx.lean): trace of the erased history + runCOps' own end state
+        ctx.case(
+            "theme_hist_ctx",
+            [CTX_IGNORES_INHERIT, names.enc(), enc_ptable(names, ids), enc_linked(ids), base_enc, ";".join(store["l"]), ops_enc, ",".join(probe_enc)],
+            outcome + ";" + "|".join(snaps) + ";" + outcome + ";" + snaps[-1],
+            shape="ctx,%s,steps%d" % (outcome, min(len(snaps), 12) // 3 * 3),
+            sample=shown,
+        )
+        ctx.note("hist_ctx_objects")
+    else:
+        ctx.case(
+            "theme_hist",
+            [CTX_IGNORES_INHERIT, names.enc(), enc_ptable(names, ids), enc_linked(ids), base_enc, ops_enc, ",".join(probe_enc)],
+            outcome + ";" + "|".join(snaps),
+            shape="%s,steps%d" % (outcome, min(len(snaps), 12) // 3 * 3),
+            sample=shown,
+        )
     ctx.note("hist_outcome:" + outcome)
 
     # ---- direct evaluation against the specification
@@ -432,7 +522,7 @@ def check_history(ctx, ids, base_theme, ops, probes, tnames, default_console=Fal
     if ok:
         for k, (a, b) in enumerate(zip(real_lookups, spec_lookups)):
             for p, x, y in zip(probes, a, b):
-                same = x[0] == y[0] and (x[0] != "v" or x[1] == y[1])
+                same = x[0] == y[0] and (x[0] != "v" or same_style(x[1], y[1]))
                 if not same:
                     ok = False
                     step = k
@@ -455,7 +545,7 @@ def check_history(ctx, ids, base_theme, ops, probes, tnames, default_console=Fal
         except SpecErr as e:
             o2 = "raised:" + str(e)
         if o2 == outcome and len(l2) == len(real_lookups) and all(
-            x[0] == y[0] and (x[0] != "v" or x[1] == y[1]) for a, b in zip(real_lookups, l2) for x, y in zip(a, b)
+            x[0] == y[0] and (x[0] != "v" or same_style(x[1], y[1])) for a, b in zip(real_lookups, l2) for x, y in zip(a, b)
         ):
             finding = "use-theme-ignores-inherit"
     ctx.check(ok, "Console.get_style after history", desc, what, finding=finding)
@@ -468,7 +558,7 @@ def check_history(ctx, ids, base_theme, ops, probes, tnames, default_console=Fal
     bal = is_balanced(ops)
     if bal is not None:
         ctx.note("balanced_histories")
-        ok = len(real_lookups) > 0 and real_lookups[-1] == real_lookups[0] and len(stack._entries) == 1 and outcome == ("normal" if bal else "raised:UserError")
+        ok = len(real_lookups) > 0 and _same_lookups(real_lookups[-1], real_lookups[0]) and len(stack._entries) == 1 and outcome == ("normal" if bal else "raised:UserError")
         ctx.check(ok, "balanced history restores", desc, f"after a balanced history lookups/stack depth are not what they were before it (outcome {outcome}, depth {len(stack._entries)})")
     return outcome
 
@@ -477,8 +567,20 @@ def _force_use_inherit(ops):
     return [(op[0], op[1], True, _force_use_inherit(op[3])) if op[0] == "use" else op for op in ops]
 
 
+def _tri(st):
+    """the attributes of a style as the tri-states the property is about"""
+    try:
+        return "{" + ", ".join("%s=%s" % (a, getattr(st, a)) for a in ATTRS if getattr(st, a) is not None) + ("; link=%r" % st.link if st.link else "") + "}"
+    except Exception as e:
+        return "{broken: %s}" % type(e).__name__
+
+
+def _same_lookups(a, b):
+    return len(a) == len(b) and all(x[0] == y[0] and (x[0] != "v" or same_style(x[1], y[1])) for x, y in zip(a, b))
+
+
 def _sh(r):
-    return "Style(%s)" % r[1] if r[0] == "v" else {"M": "MissingStyle", "X": "another exception", "S": "StyleSyntaxError"}[r[0]]
+    return "Style(%s %s)" % (r[1], _tri(r[1])) if r[0] == "v" else {"M": "MissingStyle", "X": "another exception", "S": "StyleSyntaxError"}[r[0]]
 
 
 # ------------------------------------------------------------------ threads and outside mutation
@@ -686,7 +788,7 @@ def check_mt(ctx, ids, base_styles, nthreads, sched, probes, sample=False):
                 return k, f"step {k} ended {r}, expected {sr}"
             for t in range(nthreads):
                 for p, x, y in zip(probes, vs[t][1], svs[t]):
-                    if x[0] != y[0] or (x[0] == "v" and x[1] != y[1]):
+                    if x[0] != y[0] or (x[0] == "v" and not same_style(x[1], y[1])):
                         return k, f"after step {k} thread {t}: get_style{p!r} gives {_sh(x)}, expected {_sh(y)}"
         return None
 
@@ -785,6 +887,101 @@ def run_mt_cases(ctx, ids, S):
         check_mt(ctx, ids, {rng.choice(pool): rng.choice(S) for _ in range(rng.randint(0, 3))}, nt, sched, probes + [(rng.choice(S),)], sample=(i == 7))
 
 
+def check_ctx_flat(ctx, ids, base_theme, objs, steps, probes, tnames, sample=False):
+    """ThemeContext objects driven by hand on one console: objs = [(theme, inherit)], made ONCE by console.use_theme;
+    steps ("N", c) = objs[c].__enter__(), ("X", c) = objs[c].__exit__(None, None, None), ("O",) = console.pop_theme(),
+    each in its own try; a view after every step"""
+    from rich.console import Console
+    from rich.style import Style
+    from rich.theme import ThemeStackError
+
+    console = Console(file=io.StringIO(), theme=base_theme)
+    base_dict = console._theme_stack._entries[0]
+    cobjs = [console.use_theme(t, inherit=i) for t, i in objs]
+    names = Names()
+    base_enc = enc_dict_in(names, ids, base_dict)
+    store = ";".join("%d:%s" % (i, enc_dict_in(names, ids, t.styles)) for t, i in objs)
+    probe_enc = [">".join("s%d" % ids.sid(x) if isinstance(x, Style) else "n%d" % names.add(x) for x in p) for p in probes]
+    side = []
+    spec = Spec(dict(base_dict))
+    desc = "; ".join(("ctx%d.__enter__()" % s_[1]) if s_[0] == "N" else ("ctx%d.__exit__()" % s_[1]) if s_[0] == "X" else "pop_theme()" for s_ in steps)
+    desc = "ctx0=use_theme(%s,inherit=%s), ctx1=use_theme(%s,inherit=%s): %s" % (tnames.get(id(objs[0][0]), "T"), objs[0][1], tnames.get(id(objs[1][0]), "T"), objs[1][1], desc)
+    snap, lk, inv = take_view(console, probes, names, ids, base_dict, side)
+    out = ["ok;" + snap]
+    bad = None
+    for k, st in enumerate(steps):
+        try:
+            if st[0] == "N":
+                r = cobjs[st[1]].__enter__()
+                res = "ok" if r is cobjs[st[1]] else "Other:enter-returned-something-else"
+            elif st[0] == "X":
+                r = cobjs[st[1]].__exit__(None, None, None)
+                res = "ok" if not r else "Other:exit-swallows"
+            else:
+                console.pop_theme()
+                res = "ok"
+        except ThemeStackError:
+            res = "ThemeStackError"
+        except IndexError:
+            res = "IndexError"
+        except BaseException as e:  # noqa: B036  an answer to compare
+            res = "Other:" + type(e).__name__
+        # the statement: __enter__ adds a frame (theme, inherit) however often the object is already entered; __exit__ and
+        # pop_theme remove the newest frame whichever object they are called on, ThemeStackError when none is open
+        if st[0] == "N":
+            spec.frames.append((objs[st[1]][0].styles, objs[st[1]][1]))
+            want = "ok"
+        elif spec.frames:
+            spec.frames.pop()
+            want = "ok"
+        else:
+            want = "ThemeStackError"
+        snap, lk, ok_inv = take_view(console, probes, names, ids, base_dict, side)
+        inv = inv and ok_inv
+        out.append(res + ";" + snap)
+        if bad is None:
+            if res != want:
+                bad = f"step {k + 1} ended {res}, expected {want}"
+            else:
+                for p, x in zip(probes, lk):
+                    y = spec.get_style(*p)
+                    if x[0] != y[0] or (x[0] == "v" and not same_style(x[1], y[1])):
+                        bad = f"after step {k + 1}: get_style{p!r} gives {_sh(x)}, the open frames give {_sh(y)} (stack depth {len(console._theme_stack._entries)}, open frames {len(spec.frames)})"
+                        break
+    ctx.case("theme_ctx_flat", [CTX_IGNORES_INHERIT, names.enc(), enc_ptable(names, ids), enc_linked(ids), base_enc, store,
+                                ";".join(("%s%d" % (s_[0], s_[1])) if s_[0] != "O" else "O" for s_ in steps), ",".join(probe_enc)],
+             "|".join(out), shape="steps%d" % len(steps), sample=("context objects by hand: " + desc) if sample else None)
+    ctx.check(bad is None, "ThemeContext object re-entered / re-used", desc, bad or "")
+    for site, what in side[:3]:
+        ctx.check(False, site, desc, what)
+    ctx.check(inv, "ThemeStack invariants", desc, "ThemeStack.get is not bound to _entries[-1], or _entries[0] is no longer the base theme's dict")
+
+
+def run_ctx_flat_cases(ctx, ids, BASE, TA, TB, probes):
+    """every word of <= 4 (5) steps over {ctx0.__enter__, ctx0.__exit__, ctx1.__enter__, ctx1.__exit__, pop_theme} with
+    at least one __enter__ (quick: length 4 only over ctx0 + pop / with ctx1.__enter__), then seeded random words to 12"""
+    rng = ctx.rng
+    tnames = {id(TA): "A", id(TB): "B"}
+    alpha = [("N", 0), ("X", 0), ("N", 1), ("X", 1), ("O",)]
+    n = 0
+    for ln in range(1, (4 if ctx.quick else 6)):
+        for word in itertools.product(alpha, repeat=ln):
+            if not any(w[0] == "N" for w in word):
+                continue
+            check_ctx_flat(ctx, ids, BASE, [(TA, False), (TB, True)], list(word), probes, tnames, sample=(n == 77))
+            n += 1
+    for word in itertools.product([("N", 0), ("X", 0), ("N", 1), ("O",)], repeat=4 if ctx.quick else 6):
+        if sum(w == ("N", 0) for w in word) < 2:
+            continue
+        check_ctx_flat(ctx, ids, BASE, [(TA, True), (TB, False)], list(word), probes, tnames)
+        n += 1
+    ctx.note("ctx_flat_exhaustive", n)
+    for i in range(60 if ctx.quick else 3000):
+        objs = [(rng.choice([TA, TB]), rng.random() < 0.5) for _ in range(2)]
+        word = [rng.choice(alpha) for _ in range(rng.randint(2, 12))]
+        check_ctx_flat(ctx, ids, BASE, objs, word, probes, tnames, sample=(i == 5))
+
+
 # ------------------------------------------------------------------ config round trip
 SAFE_NAMES = ["a", "warning", "repr.str", "a b", "x-y_z", "b", "rem x", "bar.back", "a.b.c", "0", "on", "none"]
 NONASCII_SAFE = ["é", "ß", "名前", "a\x0cb", "ς", "i̇"]
@@ -830,11 +1027,11 @@ def classify_roundtrip_failure(styles, want, t2, ans):
             return "config-name-case"
         return None
     lowered = {k.lower(): v for k, v in want.items()}
-    if case_changes and len(lowered) == len(want) and t2.styles == lowered:
+    if case_changes and len(lowered) == len(want) and same_styles(t2.styles, lowered):
         return "config-name-case"  # exactly the lower-cased names, nothing else differs
     for ref in (want, lowered if len(lowered) == len(want) else want):
         if set(t2.styles) == set(ref):
-            diff = [k for k in ref if t2.styles[k] != ref[k]]
+            diff = [k for k in ref if not same_style(t2.styles[k], ref[k])]
             if diff and all("%" in str(ref[k]) for k in diff):
                 return "config-percent-interpolation"  # only values containing '%' changed
     return None
@@ -897,7 +1094,7 @@ def check_from_file(ctx, ids, text, inherit, defaults_enc, defaults_names, reada
         # Theme.read == Theme.from_file on the newline-translated text
         try:
             t3 = Theme.from_file(io.StringIO(seen), inherit=inherit)
-            same = t is not None and t3.styles == t.styles
+            same = t is not None and same_styles(t3.styles, t.styles)
         except Exception as e:
             same = t is None and ("err:" + type(e).__name__ == ans or ans == "err:Other")
         ctx.check(same, "Theme.read", (text, inherit), "Theme.read(path) differs from Theme.from_file on the file's text with newlines translated")
@@ -934,7 +1131,8 @@ def run(ctx):
         "config round trip domain: names non-empty, without '=' ':' newline, strip()-stable, not starting with '#' ';' '['",
     ]
 
-    S = [Style.parse(x) for x in ["red", "bold", "italic green", "on blue", "underline", "dim cyan", "magenta", "reverse", "link http://x bold"]]
+    S = [Style.parse(x) for x in ["red", "bold", "italic green", "on blue", "underline", "dim cyan", "magenta", "reverse", "link http://x bold",
+                                  "not bold italic link https://example.org/docs", "not dim not underline on red link x", "not italic"]]
 
     # ================================================================ 1. Theme.__init__
     defaults_names = list(DEFAULT_STYLES)
@@ -986,19 +1184,21 @@ def run(ctx):
         if exp_err:
             ctx.check(ans == exp_err, "Theme.__init__", (styles, inherit), f"expected {exp_err}, got {ans[:40]}")
         else:
-            ctx.check(t is not None and t.styles == exp, "Theme.__init__", (styles, inherit), "styles are not the defaults (iff inherit) overridden by the given styles")
+            ctx.check(t is not None and same_styles(t.styles, exp), "Theme.__init__", (styles, inherit), "styles are not the defaults (iff inherit) overridden by the given styles")
         ctx.case("theme_new", [names.enc(), enc_ptable(names, ids), defaults_enc, items_enc, enc_bool(inherit)], ans,
                  shape=("err" if t is None else "inherit" if inherit else "plain"), sample=f"Theme({styles!r}, inherit={inherit})" if i % 50 == 7 else None)
     ctx.flush()
 
     # ================================================================ 2. histories
-    BASE = Theme({"a": S[0], "b": S[1], "bold": S[2], "Foo": S[8]}, inherit=False)
-    TA = Theme({"a": S[3], "c": S[4], "foo": S[7]}, inherit=False)
-    TB = Theme({"b": S[5], "c": S[6], "italic": S[0]}, inherit=False)
+    BASE = Theme({"a": S[0], "b": S[1], "bold": S[2], "Foo": S[8], "docs": S[9]}, inherit=False)
+    TA = Theme({"a": S[3], "c": S[4], "foo": S[7], "docs2": S[10]}, inherit=False)
+    TB = Theme({"b": S[5], "c": S[6], "italic": S[0], "docs": S[10], "neg": S[11]}, inherit=False)
     tnames = {id(BASE): "BASE", id(TA): "A", id(TB): "B"}
     probes = [("a",), ("b",), ("c",), ("bold",), ("italic",), ("zzz",), ("red",), ("",), ("not",),
               ("zzz", "a"), ("zzz", "c"), ("zzz", "qqq"), ("zzz", S[7]), ("zzz", ""), (S[7],), ("a", "zzz"), ("c", "b"), ("rgb(1,,2)",),
-              (" a",), ("a ",), ("A",), ("Foo",), ("foo",), ("FOO",), ("zzz", " a"), ("BOLD",), ("c ", "zzz")]
+              (" a",), ("a ",), ("A",), ("Foo",), ("foo",), ("FOO",), ("zzz", " a"), ("BOLD",), ("c ", "zzz"),
+              # styles with a link AND "not X" settings: from a theme entry, through the default, and parsed from a definition
+              ("docs",), ("docs2",), ("neg",), ("zzz", "docs"), ("not bold link https://e/p",), ("zzz", "not strike not blink link q on blue")]
     leaves = [("push", TA, True), ("push", TB, False), ("pop",), ("raise",)]
     blocks = [("use", TA, False), ("use", TB, True)]
     nmax = 3 if ctx.quick else 4
@@ -1010,8 +1210,30 @@ def run(ctx):
     ctx.note("hist_exhaustive", count)
     ctx.flush()
 
+    # ---- 2a'. ThemeContext OBJECTS with identity: the same forests, but every `with` over theme A enters one object
+    # ctx0 = console.use_theme(A, inherit=False) and every `with` over B one object ctx1 = console.use_theme(B) - so the
+    # same object is entered again while it is active (with ctx0: with ctx0: ...), used again after it was left, and left by
+    # an exception raised in the inner of two uses.  Only forests with at least two `with` statements (identity matters).
+    def n_uses(ops):
+        return sum(1 + n_uses(op[3]) for op in ops if op[0] == "use")
+
+    def with_ids(ops):
+        return [(op[0], op[1], op[2], with_ids(op[3]), 0 if op[1] is TA else 1) if op[0] == "use" else op for op in ops]
+
+    ncx = 0
+    for n in range(2, nmax + (1 if ctx.quick else 2)):  # thorough: one level deeper with `raise` as the only leaf
+        for ops in forests(n, leaves if n <= nmax else [("raise",)], blocks):
+            if n_uses(ops) < (2 if n <= nmax else 3):
+                continue
+            check_history(ctx, ids, BASE, with_ids(ops), probes if not ctx.quick else probes[:12] + probes[-6:], tnames, sample=(ncx in (3, 60)))
+            ncx += 1
+    ctx.note("hist_ctx_exhaustive", ncx)
+    ctx.flush()
+    run_ctx_flat_cases(ctx, ids, BASE, TA, TB, probes[:12] + probes[-6:])
+    ctx.flush()
+
     # random, deeper, with random themes; a share on the default console
-    pool_names = ["a", "b", "c", "bold", "italic", "repr.str", "rule.line", "zzz", "Foo", "red", "foo", " a"]
+    pool_names = ["a", "b", "c", "bold", "italic", "repr.str", "rule.line", "zzz", "Foo", "red", "foo", " a", "not bold italic link https://e/q"]
 
     def rand_theme(default_console):
         if default_console and rng.random() < 0.2:
@@ -1019,6 +1241,14 @@ def run(ctx):
         else:
             t = Theme({rng.choice(pool_names): rng.choice(S) for _ in range(rng.randint(0, 4))}, inherit=False)
         return t
+
+    cpool = []  # the context objects (theme, inherit) of the current random history, entered by identity
+
+    def use_stmt(default_console, body):
+        if cpool and rng.random() < 0.45:
+            k = rng.randrange(len(cpool))
+            return ("use", cpool[k][0], cpool[k][1], body, k)
+        return ("use", rand_theme(default_console), rng.random() < 0.5, body)
 
     def rand_free(budget, depth, default_console):
         ops = []
@@ -1032,7 +1262,7 @@ def run(ctx):
             elif r < 0.66:
                 ops.append(("raise",))
             elif depth < 4:
-                ops.append(("use", rand_theme(default_console), rng.random() < 0.5, rand_free(budget, depth + 1, default_console)))
+                ops.append(use_stmt(default_console, rand_free(budget, depth + 1, default_console)))
         return ops
 
     def rand_balanced(budget, depth, default_console, allow_raise):
@@ -1046,7 +1276,7 @@ def run(ctx):
                 ops += [("push", rand_theme(default_console), rng.random() < 0.6)] + mid + [("pop",)]
             elif r < 0.88 and depth < 4:
                 body, comp = rand_balanced(budget, depth + 1, default_console, allow_raise)
-                ops.append(("use", rand_theme(default_console), rng.random() < 0.5, body))
+                ops.append(use_stmt(default_console, body))
                 if not comp:
                     return ops + rand_free([rng.randint(0, 2)], 4, default_console), False
             elif allow_raise and r >= 0.93:
@@ -1058,6 +1288,7 @@ def run(ctx):
     for i in range(n_rand):
         default_console = i % 8 == 0
         balanced = rng.random() < 0.5
+        cpool[:] = [(rand_theme(default_console), rng.random() < 0.5) for _ in range(rng.randint(1, 2))] if i % 2 else []
         if balanced:
             ops, _ = rand_balanced([rng.randint(1, 12)], 0, default_console, True)
         else:
@@ -1090,6 +1321,40 @@ def run(ctx):
         except Exception:
             ok = False
         ctx.check(ok and len(st._entries) == 1 and st.get("a") == S[0], "ThemeStack.pop_theme on base", "ThemeStack(BASE).pop_theme()", "base popped")
+
+    # ---- names that are neither str nor Style: get_style looks them up (dict.get), then hands them to Style.parse; whatever
+    # that raises propagates unless it is StyleSyntaxError (then the default / MissingStyle); a Style passes through untouched
+    def _outcome(fn):
+        try:
+            return ("v", fn())
+        except errors.MissingStyle:
+            return ("M",)
+        except errors.StyleSyntaxError:
+            return ("S",)
+        except BaseException as e:  # noqa: B036
+            return ("E", type(e).__name__)
+
+    c_odd = Console(file=io.StringIO(), theme=BASE)
+    c_odd.push_theme(TB)
+    for bad in [None, 5, 1.5, b"bold", ("a",), True, ["a"], {"a": 1}, S[9], S[0], Style()]:
+        for dflt in (None, "a", "docs", S[10], "zzz"):
+            got = _outcome(lambda: c_odd.get_style(bad) if dflt is None else c_odd.get_style(bad, default=dflt))  # noqa: B023
+            if isinstance(bad, Style):
+                ok, why = got[0] == "v" and got[1] is bad, "a Style instance passed as name is not returned as it is"
+            else:
+                try:
+                    hash(bad)
+                    direct = _outcome(lambda: Style.parse(bad))  # noqa: B023
+                except TypeError:
+                    direct = ("E", "TypeError")  # dict.get(unhashable)
+                if direct[0] == "S":
+                    want = ("M",) if dflt is None else _outcome(lambda: c_odd.get_style(dflt))  # noqa: B023
+                else:
+                    want = direct
+                ok = got[0] == want[0] and (got[1] == want[1] if got[0] == "E" else got[0] != "v" or same_style(got[1], want[1]))
+                why = f"get_style gives {got[:2]}, Style.parse / the default give {want[:2]}"
+            ctx.check(ok, "Console.get_style with a name that is not a str", (repr(bad), repr(dflt)), why)
+    ctx.check(len(c_odd._theme_stack._entries) == 2, "Console.get_style with a name that is not a str", "stack depth", "get_style changed the stack")
 
     # ---- 2b. every stack of up to 3 (4) pushes over four themes x inherit, looked up at every level, then popped.
     # Names: `only<k>` is defined only by theme k; `all` by all; `base`/`all` by the base; `odd` by T1 and T3; `t12` by T1,T2.
@@ -1149,7 +1414,7 @@ def run(ctx):
                     ok, why = False, f"unexpected {type(e).__name__}"
                     break
                 for name in ("a", "b", "c", "bold", "italic", "foo", "Foo", "zzz"):
-                    if st.get(name) != spec.lookup(name):
+                    if (st.get(name) is None) != (spec.lookup(name) is None) or (st.get(name) is not None and not same_style(st.get(name), spec.lookup(name))):
                         ok, why = False, f"after {k + 1} steps ThemeStack.get({name!r}) is {st.get(name)}, the newest-defining-theme rule gives {spec.lookup(name)}"
                         break
                 if not ok:
@@ -1192,6 +1457,10 @@ def run(ctx):
         singles.append(Theme({"a": Style(link=link)}, inherit=False))
         singles.append(Theme({"a": Style(link=link), "b": Style(color="red")}, inherit=False))
     singles.append(Theme({"a": Style(bold=True), "A": Style(dim=True)}, inherit=False))
+    # Theme.config for every default style on its own (besides Theme() as a whole, first in this list)
+    for n_, st_ in DEFAULT_STYLES.items():
+        singles.append(Theme({n_: st_}, inherit=False))
+    ctx.note("cfg_single_default_styles", len(DEFAULT_STYLES))
     singles.append(Theme({"x": Style(bold=True), "[a": Style(link="x]")}, inherit=False))
     for i in range(len(singles) + n_cfg):
         r = rng.random()
@@ -1205,7 +1474,7 @@ def run(ctx):
         clean = {}
         for k, v in theme.styles.items():
             r2 = parse_outcome(ids, str(v))
-            if r2[0] == "v" and r2[1] == v:
+            if r2[0] == "v" and same_style(r2[1], v):
                 clean[k] = v
             else:
                 ctx.note("style_str_not_parseable(C06)")
@@ -1229,13 +1498,13 @@ def run(ctx):
                 continue
             # the property: the config text reads back as a theme with equal styles
             want = dict(theme.styles) if not inherit else {**DEFAULT_STYLES, **theme.styles}
-            ok = t2 is not None and t2.styles == want
+            ok = t2 is not None and same_styles(t2.styles, want)
             finding = None
             if not ok:
                 finding = classify_roundtrip_failure(theme.styles, want, t2, ans)
             shown = {k: str(v) for k, v in theme.styles.items()}
             ctx.check(ok, "Theme.from_file(Theme.config)", (shown, inherit),
-                      f"reading back the config gives {ans[:60] if t2 is None else 'different styles: ' + repr({k: str(v) for k, v in t2.styles.items() if want.get(k) != v} or sorted(set(want) - set(t2.styles)))[:200]}",
+                      f"reading back the config gives {ans[:60] if t2 is None else 'different styles: ' + repr({k: str(v) for k, v in t2.styles.items() if k not in want or not same_style(want[k], v)} or sorted(set(want) - set(t2.styles)))[:200]}",
                       finding=finding)
     ctx.flush()
 
@@ -1273,8 +1542,12 @@ def run(ctx):
         "and random config texts over %d line shapes (\\n / \\r\\n / \\r endings, BOM, 1 in 6 through Theme.read on a real file); "
         "every stack of <= %d pushes over 4 themes x inherit looked up at each level and popped; every 1-thread word <= %d over "
         "{push, enter, pop, base[k]=v, pushed[k]=v} and every 2-thread schedule <= %d over {push, pop} on real threads, + random "
-        "3-thread schedules; str.isspace / str.lower on all code points; distinct = distinct canonical requests"
-        % (nmax, len(probes), len(pieces), 3 if ctx.quick else 4, 3 if ctx.quick else 4, 3 if ctx.quick else 4)
+        "3-thread schedules; the same history forests (>= 2 `with` statements, <= %d statements; thorough + raise-only leaves one deeper) with the "
+        "`with` blocks naming two ThemeContext OBJECTS (re-entered while active, re-used, left by exception) and every hand-driven word "
+        "<= 3 (5) over {ctx0/ctx1.__enter__, .__exit__, pop_theme}; resolved styles compared field by field (tri-state attributes, "
+        "colours, link, str, hash), pools include styles with a link AND negated attributes; "
+        "str.isspace / str.lower on all code points; distinct = distinct canonical requests"
+        % (nmax, len(probes), len(pieces), 3 if ctx.quick else 4, 3 if ctx.quick else 4, 3 if ctx.quick else 4, nmax)
     )
 
 
@@ -1287,7 +1560,7 @@ def replay(ctx, case):
 
 
 MANIFEST = {
-    "text": "Lean 4 theorems (Props/C20.lean, 34; no bound on the number of themes, names, nesting depth, history or schedule length). "
+    "text": "Lean 4 theorems (Props/C20.lean, 42; no bound on the number of themes, names, nesting depth, history or schedule length). "
     "Stack: `resolve_spec`/`get_style_spec` - on the ThemeStack representing any list of (theme, inherit) frames over a base, "
     "Console.get_style(name, default) is: newest frame defining the name, falling through inheriting frames only, else Style.parse "
     "(StyleSyntaxError -> default / MissingStyle, other errors propagate); `lookup_reads_top_entry_only`; `get_style_object_spec` (a "
@@ -1307,12 +1580,30 @@ MANIFEST = {
     "on every run; `configparser_fragment_examples`/`_errors` (concrete instances of the parser model); `trace_is_run`. Witnesses for the "
     "repaired/known defects: `old_use_theme_ignores_inherit`, `old_config_percent_breaks`/`_changes_value`, "
     "`old_config_lowercases_names` (by `decide`) and `old_history_is_forced_inherit` (for every history). "
+    "ThemeContext objects with identity (Model/ThemeCtx.lean: histories `COp` whose `with` statements name objects of a store): "
+    "`ctx_objects_are_stateless` (every such history - same object re-entered while active, re-used, left by exception - runs exactly "
+    "as the history with a fresh use_theme per `with`), `ctx_history_refines`, `ctx_balanced_restores`, `ctx_nested_reentry_restores`, "
+    "`ctx_enters_exits_restore` (n hand-called __enter__s of any objects then n __exit__s of any objects restore the stack), and the "
+    "`decide` documentation witness `ctx_entered_flag_would_break_reentry` (a hypothetical ThemeContext with an `entered` flag leaves a "
+    "theme pushed; not the code). Known finding config-name-case: `config_roundtrip_keeps_case` (the lower=false, interp=false parser "
+    "round-trips names of any case) and `known_config_name_case` (witness with the parser /repo builds now: Foo -> foo, {A, a} -> "
+    "DuplicateOptionError, also through from_file). "
     "Tie: every history forest with <=3 (quick) / <=4 (thorough) statements over 6 statement kinds with 27 lookups after each statement; "
     "every stack of <=3 (4) pushes over 4 themes x inherit; seeded random histories to depth 4; all push/pop words <=5 (7) directly on "
     "ThemeStack; every 1-thread word <=3 (4) with outside dict mutations and every 2-thread schedule <=3 (4) on real threads, random "
     "3-thread schedules; Theme() over 12 names x 24 definitions; config round trip over single-entry themes and random themes; random "
     "config texts over ~50 line shapes with LF/CRLF/CR endings and BOM, part through Theme.read on real files; str.isspace and "
-    "str.lower on all code points - each compared model-vs-rich and evaluated against oracles written from the property statement.",
+    "str.lower on all code points - each compared model-vs-rich and evaluated against oracles written from the property statement. "
+    "Added in deepening 4: `theme_hist_ctx` - the history forests with >= 2 `with` statements in which the blocks enter two "
+    "ThemeContext objects by identity (208 quick: <= 3 statements; thorough <= 4 + one level deeper with `raise` as only leaf and >= 3 `with`s) + random histories drawing `with` statements from a pool of 1-2 objects (every second "
+    "random history), and `theme_ctx_flat` - every word <= 3 (5) over {ctx0.__enter__, ctx0.__exit__, ctx1.__enter__, ctx1.__exit__, "
+    "pop_theme} plus length-4 (6) words with ctx0 entered at least twice, and 60 (3000) random words to 12, each with a frame-list oracle "
+    "('ThemeContext object re-entered / re-used'). Style ids and every direct comparison of resolved styles are now structural "
+    "(`skey`: colours, the 13 attributes as True/False/None, link, bool, str, hash, and Style.__eq__ must agree) instead of "
+    "Style.__eq__ alone; style pools and theme entries include styles with BOTH a link and negated attributes (looked up from a theme "
+    "entry, via the default, and parsed from a definition - the cases get_style copies). get_style with names that are neither str nor "
+    "Style (None, int, float, bytes, tuple, bool, list, dict) x 5 defaults is evaluated against Style.parse's own outcome (direct only, "
+    "not in the model: model names are strings). Theme.config / from_file round trip for each of the 130 default styles on its own.",
     "note": "Trusted: Lean kernel; axioms propext/Classical.choice/Quot.sound; translator plug-ins harness/gen/default_style_names.py and "
     "harness/gen/py_lower.py (str.lower of the running Python, re-checked on all code points each run); the correspondence harness. "
     "Parameters (assumed, exercised per case): styles are opaque ids compared by Style.__eq__; Style.parse and Style.__str__ are tables "
